@@ -294,7 +294,12 @@ pub fn run_sessions(sessions_path: &str, out_path: &str) {
 				},
 				"validate" => {
 					let c = step["c"].as_u64().unwrap() as usize;
-					if let Some(Some(leaf)) = certs.get(c - 1) {
+					if let Some(Some(leaf0)) = certs.get(c - 1) {
+						// an object obtained by importing and re-issuing stands for the certificate it was imported from: that one is judged
+						let leaf = match certs.get(leaf0.origin.wrapping_sub(1)) {
+							Some(Some(orig)) if leaf0.origin != 0 => orig,
+							_ => leaf0,
+						};
 						// walk up to the root through the certificates the issuers stand for
 						let mut chain: Vec<usize> = Vec::new();
 						let mut cur = leaf.issuer_idx;
@@ -326,10 +331,15 @@ pub fn run_sessions(sessions_path: &str, out_path: &str) {
 							}
 						}
 						let facts = ca_facts_public(direct.cert.der());
+						// two different CA certificates of the path under one subject name (sessions re-use names): a path builder that
+						// looks issuers up by name alone may pick the wrong one (OpenSSL does not backtrack after a signature failure)
+						let mut names: Vec<&str> = chain.iter().map(|i| certs[i - 1].as_ref().unwrap().subject_raw.as_str()).collect();
+						names.sort();
+						let ambiguous = names.windows(2).any(|w| w[0] == w[1]);
 						// path length: intermediates of this session allow 4 below them
 						let p521 = false;
 						out.event("Chain", &case, json!({"origin": "session", "ca": facts, "stage": "validate", "akiRequested": !aki["k"].is_null() && aki["k"] == "some", "timeInside": chain.len() <= 5 && !p521, "depth": chain.len(),
-							"leafIsCa": leaf.params_desc["isCa"]["k"] == "Ca"}),
+							"leafIsCa": leaf.params_desc["isCa"]["k"] == "Ca", "issuerNamesAmbiguous": ambiguous}),
 							"Ok", "", json!({"leafIssuerRaw": lv["issuerRaw"], "leafSubjectRaw": lv["subjectRaw"], "leafAki": aki, "openssl": o, "webpki": w}));
 					}
 				},
